@@ -77,6 +77,8 @@ def summarize(crate, path, ck=None, closure=False):
         return None, None
     ps = pathsum.PathSum(enums_of(crate), inline_helpers(crate), const_bodies(crate))
     ps._inl_stack.append(hir.base_path(path))
+    if crate.body("microscpi::parser::take_while") is not None:
+        ps.take_while_fn = "microscpi::parser::take_while"
     v = hir.async_full(b["value"])
     params = b["params"]
     if closure:
